@@ -148,13 +148,16 @@ func packetObs(data []byte, first gopacket.LayerType) vh.M {
 				fail = true
 				ft = dtext(f.Error().Error())
 				fpt = dtext("panic: " + f.Error().Error())
-				ls = append(ls, vh.M{"t": l.LayerType().String(), "d": "", "c": short(l.LayerContents()), "p": short(l.LayerPayload()), "emb": false})
+				ls = append(ls, vh.M{"t": l.LayerType().String(), "d": "", "c": short(l.LayerContents()), "p": short(l.LayerPayload()), "emb": 0})
 				continue
 			}
-			emb := false
+			emb := 0
 			if h, ok := l.(*layers.IPv6HopByHop); ok && i > 0 {
 				if ip6, ok := all[i-1].(*layers.IPv6); ok && ip6.HopByHop == h {
-					emb = true // decodeIPv6 adds the hop-by-hop header it already decoded inside the IPv6 layer as a layer of its own
+					emb = 1 // decodeIPv6 adds the hop-by-hop header it already decoded inside the IPv6 layer as a layer of its own
+					if ip6.Length == 0 {
+						emb = 2 // ... of a jumbogram
+					}
 				}
 			}
 			ls = append(ls, vh.M{"t": l.LayerType().String(), "d": vh.Digest(l), "c": short(l.LayerContents()), "p": short(l.LayerPayload()), "emb": emb})
